@@ -306,7 +306,8 @@ def _len2(rng, units):
     return ("%g" % v) + u
 
 
-def gen_dfxp(rng, n=None, nlangs=None, abs_units=None):
+def gen_dfxp(rng, n=None, nlangs=None, abs_units=None, referential=False):
+    """referential=True: region r0 surely takes its origin and extent from style s0 of <styling> and <body> uses r0."""
     n = n or rng.randint(1, 5)
     nlangs = nlangs or rng.choice([1, 1, 1, 2, 2, 3, 4])
     if abs_units is None:
@@ -316,13 +317,15 @@ def gen_dfxp(rng, n=None, nlangs=None, abs_units=None):
     if nlangs > 1 and rng.random() < 0.12:
         langs[-1] = langs[0]          # two <div>s with the same language
     styles = []
-    nstyles = rng.randint(0, 3)
+    nstyles = rng.randint(1, 3) if referential else rng.randint(0, 3)
     for i in range(nstyles):
         attrs = rng.sample(['tts:color="white"', 'tts:fontFamily="monospace"', 'tts:fontSize="1c"',
                             'tts:fontStyle="italic"', 'tts:textAlign="%s"' % rng.choice(["center", "left", "right", "start", "end"]),
                             'tts:fontWeight="bold"', 'tts:textDecoration="underline"'], rng.randint(1, 4))
         ref = ' style="s%d"' % (i - 1) if i > 0 and rng.random() < 0.3 else ""
-        if rng.random() < 0.3:
+        if referential and i == 0:
+            attrs += ['tts:origin="%s %s"' % (_len2(rng, units), _len2(rng, units)), 'tts:extent="%s %s"' % (_len2(rng, units), _len2(rng, units))]
+        elif rng.random() < 0.3:
             # referential geometry: a region (or an element) may take origin / extent / padding / displayAlign from a
             # style of <styling>, so two documents can carry the very same <region> markup and still differ
             attrs += rng.sample(['tts:origin="%s %s"' % (_len2(rng, units), _len2(rng, units)),
@@ -334,7 +337,7 @@ def gen_dfxp(rng, n=None, nlangs=None, abs_units=None):
     if rng.random() < 0.15:
         styles.append('<style xml:id="p" tts:color="yellow"/>')
     regions = []
-    nregions = rng.randint(0, 3)
+    nregions = rng.randint(1, 3) if referential else rng.randint(0, 3)
     for i in range(nregions):
         attrs = []
         if rng.random() < 0.8:
@@ -350,7 +353,9 @@ def gen_dfxp(rng, n=None, nlangs=None, abs_units=None):
         inner = ""
         if rng.random() < 0.2:
             inner = '<style tts:extent="%s %s"/>' % (_len2(rng, units), _len2(rng, units))
-        if nstyles and rng.random() < 0.35:
+        if referential and i == 0:
+            attrs = [a for a in attrs if not a.startswith(("tts:origin", "tts:extent"))] + ['style="s0"']
+        elif nstyles and rng.random() < 0.35:
             if rng.random() < 0.4:
                 attrs = [a for a in attrs if not a.startswith(("tts:origin", "tts:extent"))]   # left to the referenced style
             attrs.append('style="s%d"' % rng.randrange(nstyles))
@@ -368,7 +373,7 @@ def gen_dfxp(rng, n=None, nlangs=None, abs_units=None):
     out = ['<?xml version="1.0" encoding="utf-8"?>' if rng.random() < 0.7 else "",
            '<tt%s xmlns="http://www.w3.org/ns/ttml" xmlns:tts="http://www.w3.org/ns/ttml#styling" xmlns:ttp="http://www.w3.org/ns/ttml#parameter">' % tt_attrs,
            "<head><styling>%s</styling><layout>%s</layout></head>" % ("".join(styles), "".join(regions)),
-           "<body%s>" % (' region="r0"' if nregions and rng.random() < 0.1 else "")]
+           "<body%s>" % (' region="r0"' if nregions and (referential or rng.random() < 0.1) else "")]
     for lang in langs:
         div_attr = ' xml:lang="%s"' % lang if (nlangs > 1 or rng.random() < 0.7) else ""
         if nregions and rng.random() < 0.2:
